@@ -116,11 +116,12 @@ Print Assumptions C05_isolation_limit_refuted.
 
 (* ---- (2) file-system faults ---- *)
 
-(* for EVERY fault plan, weekday draw and initial directory state, opening
+(* for EVERY fault plan, weekday draw, content of the mode file (absent, empty,
+   blank, garbage, off, ...) and initial directory state, opening
    makes at most 12 file-system calls and ends mapped or parked (the model's
    Panic = the index buf[0] on an empty weekends file, is unreachable) *)
-Theorem C05_open_total : forall p day sd fs,
-  let '(o, n, _) := rotate1 p day sd fs in (n <= 12)%nat /\ (o = Mapped \/ o = Parked).
+Theorem C05_open_total : forall p day sd mode fs,
+  let '(o, n, _) := rotate1 p day sd mode fs in (n <= 12)%nat /\ (o = Mapped \/ o = Parked).
 Proof. exact rotate1_total. Qed.
 Print Assumptions C05_open_total.
 
@@ -128,8 +129,8 @@ Theorem C05_extend_total : forall p i, (i + 1 <= snd (extend p i) <= i + 6)%nat.
 Proof. exact extend_total. Qed.
 Print Assumptions C05_extend_total.
 
-Theorem C05_scenario_total : forall p day sd fs,
-  let '(o, i, ok, n) := scenario p day sd fs in
+Theorem C05_scenario_total : forall p day sd mode fs,
+  let '(o, i, ok, n) := scenario p day sd mode fs in
   (i <= 12 /\ n <= 18 /\ i <= n)%nat /\ (o = Mapped \/ o = Parked) /\ (ok = true -> o = Mapped).
 Proof. exact scenario_total. Qed.
 Print Assumptions C05_scenario_total.
@@ -150,7 +151,7 @@ Print Assumptions C05_parked_add_in_memory.
 Example C05_model_runs : fst (new_counter stale wH na) = NCell 2112.
 Proof. vm_compute. reflexivity. Qed.
 Example C05_fault_model_runs :
-  scenario (fun i => if Nat.eqb i 7 then KShort else KOk) 51 true (mkFS None CAbsent) = (Parked, 8%nat, false, 8%nat).
+  scenario (fun i => if Nat.eqb i 7 then KShort else KOk) 51 true None (mkFS None CAbsent) = (Parked, 8%nat, false, 8%nat).
 Proof. vm_compute. reflexivity. Qed.
 
 (* ---- (3) the uploader half: upload.Run under faults of every os / http /
